@@ -229,6 +229,7 @@ structure Host where
   allCbs : List Nat
   nameCallers : List (Nat × Nat) := []   -- keys of `param_update_callbacks` (a `Caller` exists, possibly empty)
   groupCallers : List Nat := []          -- keys of `group_update_callbacks`
+  connected : Bool := true               -- `cf.is_connected()`: the TOCs are complete (D28: gates the "all updated" notification)
   deriving DecidableEq, Repr
 
 def Host.init (toc : List Elem) (v2 : Bool) : Host :=
@@ -304,7 +305,7 @@ def paramUpdated (h : Host) (p : Pkt) : Except PyErr (Host × List Out) :=
       | .ok v =>
         let h1 := { h with values := (e.group, e.name, v) :: h.values }
         let outs := fanout h e.group e.name v
-        if allFetched h1 && !h1.isUpdated then
+        if h1.connected && allFetched h1 && !h1.isUpdated then
           .ok ({ h1 with isUpdated := true, initialized := true }, outs ++ [.allUpdated])
         else .ok (h1, outs)
 
